@@ -13,6 +13,7 @@ import (
 	"net"
 	"os"
 	"os/exec"
+	"runtime"
 	"sort"
 	"strconv"
 	"strings"
@@ -529,6 +530,11 @@ func Exec(in *bufio.Scanner, out *bufio.Writer) {
 				res = "ok"
 			case <-time.After(wd):
 				res = "stuck"
+				if dir := os.Getenv("HV_STUCK_DUMP"); dir != "" {
+					buf := make([]byte, 1<<20)
+					n := runtime.Stack(buf, true)
+					os.WriteFile(fmt.Sprintf("%s/stuck-%d.txt", dir, os.Getpid()), buf[:n], 0o644)
+				}
 			}
 			s.stopd = true
 		}
